@@ -38,14 +38,19 @@ CLAIMS = {
         "ref": "DESIGN.md §4 C02",
     },
     "C03": {
-        "technique": "Lean 4 theorems on negate_expr_op / Op::negate (generated table) / conforms (involution, De Morgan, BETWEEN complement, verdict-level complement under per-type atom lemmas) + CLI correspondence + set-algebra oracle",
-        "text": ("Theorems for every condition tree and entry: double negation is the identity (over the generated Op::negate table), NOT "
-                 "over AND/OR is De Morgan, `not between` is the negation of `between`, A and B / A or B evaluate to the conjunction / "
-                 "disjunction of the sub-verdicts, and the verdict of a negated condition is the negated verdict (including error/short-"
-                 "circuit behaviour) whenever each comparison atom is complement-safe — discharged for integer, date and plain text "
-                 "comparisons; two counterexample theorems show the explicit hypotheses cannot be dropped (NaN literal; ordering operators on "
-                 "text, which the code answers false both ways). Precedence/bracket parsing and the cache transparency are decided by the "
-                 "correspondence and the set-algebra oracle over atom queries, not by proof."),
+        "technique": "Lean 4 theorems: condition-parser correctness for the whole Boolean grammar X/Y/Z (mutual structural induction over derivations against the well-founded recursive-descent model: AND over OR, brackets, prefix NOT parity with De Morgan push-down), negate_expr_op / Op::negate (generated table) / conforms (involution, De Morgan, BETWEEN complement, verdict-level complement under per-type atom lemmas) + CLI correspondence + set-algebra oracle",
+        "text": ("Theorems: for EVERY derivation of X ::= Y (or Y)*, Y ::= Z (and Z)*, Z ::= not* (atom | (X)) — any depth and length — "
+                 "parse_expr on its token sequence returns the tree the derivation denotes and leaves exactly the following tokens, so "
+                 "AND binds tighter than OR, brackets override and a run of prefix NOTs negates by parity (`column op literal` is shown "
+                 "to be an atom; instances and_binds_tighter, brackets_override_precedence, not_bracket_is_de_morgan). For every "
+                 "condition tree and entry: double negation is the identity (over the generated Op::negate table), NOT over AND/OR is "
+                 "De Morgan, `not between` is the negation of `between`, A and B / A or B evaluate to the conjunction / disjunction of "
+                 "the sub-verdicts, and the verdict of a negated condition is the negated verdict (including error/short-circuit "
+                 "behaviour) whenever each comparison atom is complement-safe — discharged for integer, date and plain text "
+                 "comparisons; two counterexample theorems show the explicit hypotheses cannot be dropped (NaN literal; ordering "
+                 "operators on text, which the code answers false both ways). Curly brackets inside formulas, the infix forms "
+                 "`not like`/`not between` under prefix NOTs, and the end-to-end result sets are decided by the correspondence and the "
+                 "set-algebra oracle over atom queries."),
         "ref": "DESIGN.md §4 C03",
     },
     "C05": {
